@@ -55,22 +55,33 @@ class _HttpHandler(H.HttpRequestHandler):
         return http.HTTPStatus.OK, None, io.BytesIO(b"hello")
 
 
+_port_counter = [0]
+
+
 def _free_port(kind):
-    typ = real_socket.SOCK_DGRAM if kind == "tftp" else real_socket.SOCK_STREAM
-    for _ in range(50):
-        s = real_socket.socket(real_socket.AF_INET6, typ)
-        try:
-            s.bind(("::1", 0))
-            port = s.getsockname()[1]
-        finally:
-            s.close()
-        # make sure the other protocol's probe does not collide either
+    """a port below the kernel's ephemeral range (so that no client socket of a parallel worker or of
+    another process lands on it), different per worker process"""
+    for _ in range(200):
+        _port_counter[0] += 1
+        port = 10000 + (os.getpid() * 131 + _port_counter[0] * 7) % 20000
         if _port_bound(kind, port) == 0:
             return port
     raise RuntimeError("no free port")
 
 
-def _port_bound(kind, port):
+def _port_bound(kind, port, expect=None):
+    """like _port_bound1; a result that differs from what the caller expects is re-probed (a transient
+    foreign socket must not be taken for a leak)"""
+    r = _port_bound1(kind, port)
+    for _ in range(3):
+        if expect is None or r == expect:
+            return r
+        time.sleep(0.05)
+        r = _port_bound1(kind, port)
+    return r
+
+
+def _port_bound1(kind, port):
     """1 iff a socket still holds the port: bind probe, for UDP without SO_REUSEADDR; for TCP with
     SO_REUSEADDR so that connections in TIME_WAIT do not count while a listening socket still does"""
     typ = real_socket.SOCK_DGRAM if kind == "tftp" else real_socket.SOCK_STREAM
@@ -176,7 +187,7 @@ def run_history(kind, h):
                     expect_running = 1 if o == START else 0
             elif o == REQUEST:
                 served = (_tftp_request if kind == "tftp" else _http_request)(port)
-            obs.append([raised, _port_bound(kind, port), _extra_threads(baseline, expect_running), served, hang])
+            obs.append([raised, _port_bound(kind, port, expect_running), _extra_threads(baseline, expect_running), served, hang])
             if hang:
                 break
     finally:
